@@ -114,3 +114,41 @@ let () =
                     List (Atom "states" :: List.map (fun (s, i) -> List [of_set s; sn i]) states)])
             (Subset.dfa_from_regex (pick_of pick) (nat_of_int (int_ fuel)) submap r) of_serror
       | _ -> raise (Shape "subset args"))
+
+(* ---- Spec/Lang.v: the proved judge ----
+   equiv  <dfa (with subdfas)> <valid-expr> <fuel>  -> (equal) | (differ (<letter>..)) | (nofuel)
+   wequiv <dfa> <within-word expr> <fuel>           -> the same, for a within-word automaton       *)
+module Lang = Extracted.Lang
+
+let of_witem (a : Lang.witem) : t =
+  match a with
+  | Lang.WLit (t, d, l) -> List [Atom "lit"; ss t; sos d; sn l]
+  | Lang.WCmd (c, l) -> List [Atom "cmd"; ss c; sn l]
+  | Lang.WCompadd (c, l) -> List [Atom "compadd"; ss c; sn l]
+  | Lang.WStar -> List [Atom "star"]
+
+let of_tl (a : Lang.tl) : t =
+  match a with
+  | Lang.TLeaf w -> of_witem w
+  | Lang.TSub (c, l) -> List [Atom "sub"; sn c; sn l]
+
+let of_result (f : 'a -> t) (r : 'a Lang.result) : t =
+  match r with
+  | Lang.Equal -> List [Atom "equal"]
+  | Lang.Differ w -> List [Atom "differ"; List (List.map f w)]
+  | Lang.NoFuel -> List [Atom "nofuel"]
+
+let () =
+  register "equiv" (fun v ->
+      match v with
+      | List [d; e; fuel] ->
+          of_result of_tl (Lang.equiv_dfa_expr (nat_of_int (int_ fuel)) (Dfa_io.cdfa_of d) (expr_of e))
+      | _ -> raise (Shape "equiv args"))
+
+let () =
+  register "wequiv" (fun v ->
+      match v with
+      | List [d; e; fuel] ->
+          let (d, _) = Dfa_io.dfa_parts d in
+          of_result of_witem (Lang.equiv_wdfa_expr (nat_of_int (int_ fuel)) d (expr_of e))
+      | _ -> raise (Shape "wequiv args"))
